@@ -196,6 +196,8 @@ class Impl(object):
         self.loop.close()
         asyncio.set_event_loop(None)
 
+    idle = True   # run ready callbacks to quiescence after the current event (False: same loop iteration)
+
     def _guard(self, cid, fn, *a, forced_close=True):
         """run a protocol callback the way asyncio does"""
         self.current = cid
@@ -204,7 +206,8 @@ class Impl(object):
         signal.setitimer(signal.ITIMER_REAL, 20.0)
         try:
             fn(*a)
-            self.loop.run_idle()
+            if self.idle:
+                self.loop.run_idle()
         except Timeout:
             self.hung = cid
             raise
@@ -284,7 +287,7 @@ class Impl(object):
             self.loop.run_idle()
         elif k == 'advance':
             self.loop.advance(ev[1])
-        elif k == 'dump':
+        elif k in ('dump', 'nogap'):
             pass
         else:
             raise ValueError(ev)
@@ -351,6 +354,9 @@ def model_lines(script, labels, chans):
     kinds = []
     for ev in script['events']:
         k = ev[0]
+        if k == 'nogap':
+            kinds.append('skip')
+            continue
         if k == 'dump':
             lines.append('b.dump %s %s' % (','.join('None' if l is None else hexin(l) for l in labels) or '.', hexlist(chans)))
             kinds.append('dump')
@@ -664,6 +670,8 @@ def run_script(script, drv, res, want_model=True):
             marks = {cid: len(t.log) for cid, t in impl.tr.items()}
             closing_before = {cid: t.closing for cid, t in impl.tr.items()}
             now_before = impl.loop.ms
+            nxt = script['events'][idx + 1] if idx + 1 < len(script['events']) else None
+            impl.idle = not (nxt is not None and nxt[0] == 'nogap')
             try:
                 impl.event(ev)
             except Timeout:
@@ -769,7 +777,9 @@ def run_script(script, drv, res, want_model=True):
     if drv is not None and want_model:
         lines, kinds = model_lines(script, labels, chans)
         ans = drv.ask_many(lines)
-        body = ans[2 + len(cfg['rows']):]
+        body0 = ans[2 + len(cfg['rows']):]
+        it = iter(body0)
+        body = [next(it) if k != 'skip' else 'ok' for k in kinds]
         dumps = [a for a, k in zip(body, kinds) if k == 'dump']
         invalid = [i for i, (a, k) in enumerate(zip(body, kinds)) if k == 'ev' and a != 'ok']
         if invalid:
@@ -1091,6 +1101,15 @@ def gen_script(rng, tier, profile):
                     cid = rng.choice(cands)
                     if cid in deadlines:
                         if rng.random() < 0.5:
+                            if rng.random() < 0.35:
+                                # the buffer drains and refills within one loop iteration
+                                impl.idle = False
+                                do(['resume', cid])
+                                impl.idle = True
+                                events.append(['nogap'])
+                                do(['pause', cid])
+                                deadlines[cid] = impl.loop.ms + GRACE_MS
+                                continue
                             do(['resume', cid])
                             deadlines.pop(cid)
                         else:
@@ -1166,7 +1185,7 @@ def replan(base, insert_at, lost_c, extra=None):
                             row = cfg['rows'].get(ident.encode('utf-8').hex() or '-')
                             do(['lookup_done', lost_c, 0, ['row', row] if row else ['missing']])
             k = ev[0]
-            if k == 'fire':
+            if k in ('fire', 'nogap'):
                 continue
             fire_due()
             c = ev[1] if len(ev) > 1 and k not in ('advance', 'dump') else None
@@ -1237,7 +1256,7 @@ def locate_divergence(script, drv):
     probe = dict(script)
     evs = []
     for ev in script['events']:
-        if ev[0] != 'dump':
+        if ev[0] not in ('dump', 'nogap'):
             evs.append(ev)
             evs.append(['dump'])
     probe['events'] = evs
@@ -1260,7 +1279,7 @@ def probe_variants(script, idx):
     channel; subscribes to every channel followed by publishes from a clean publisher)"""
     cfg = script['cfg']
     rows = {hx(k): r for k, r in cfg['rows'].items()}
-    base = [e for e in script['events'] if e[0] != 'dump']
+    base = [e for e in script['events'] if e[0] not in ('dump', 'nogap')]
     if idx is None or idx >= len(base):
         return []
     ev = base[idx]
